@@ -34,6 +34,9 @@ func main() {
 	case "plan":
 		runtime.GOMAXPROCS(1)
 		planMain(os.Args[2:])
+	case "rehist":
+		runtime.GOMAXPROCS(1)
+		rehistMain(os.Args[2:])
 	default:
 		fmt.Fprintln(os.Stderr, "unknown mode", os.Args[1])
 		os.Exit(2)
@@ -59,8 +62,15 @@ func workerMain(args []string) {
 	keep := fs.Bool("evlog", false, "print the full switch log of every run (determinism self-test)")
 	deadline := fs.Int64("deadline", 0, "unix time after which no new run is started")
 	samples := fs.Int("samples", 0, "print the plan of the first N runs as SAMPLE lines")
+	histlog := fs.String("histlog", "", "append every clean-room evaluation of the register machine to this file")
 	fs.Parse(args)
 	setup()
+	if *histlog != "" {
+		if err := engine.SetHistoryLog(*histlog); err != nil {
+			fmt.Fprintln(os.Stderr, "worker:", err)
+			os.Exit(2)
+		}
+	}
 	out := bufio.NewWriterSize(os.Stdout, 1<<16)
 	defer out.Flush()
 	for run := *from; run < *to; run += *stride {
@@ -136,4 +146,22 @@ func planMain(args []string) {
 		fmt.Fprintln(os.Stderr, "plan:", err)
 		os.Exit(2)
 	}
+}
+
+// rehistMain re-evaluates a history log in shuffled order in a fresh process.
+func rehistMain(args []string) {
+	fs := flag.NewFlagSet("rehist", flag.ExitOnError)
+	in := fs.String("in", "", "history log")
+	seed := fs.Uint64("seed", 1, "shuffle seed")
+	max := fs.Int("max", 0, "evaluate at most this many records")
+	fs.Parse(args)
+	setup()
+	n, viols, err := engine.ReHistory(*in, *seed, *max)
+	if err != nil {
+		fmt.Fprintln(os.Stderr, "rehist:", err)
+		os.Exit(2)
+	}
+	res := plan.Result{Violations: viols, Stats: map[string]uint64{"records": uint64(n)}}
+	b, _ := json.Marshal(res)
+	fmt.Printf("END 0 %s\n", b)
 }
